@@ -87,6 +87,8 @@ class Table:
         def self_hook(kind, o, attr, v, st):
             if kind == "getattr":
                 if attr.startswith("__"): return NotImplemented
+                if isinstance(tbl.repo.index.get(CLS + "." + attr), ast.FunctionDef) and not any(ast.unparse(d_) == "property" for d_ in tbl.repo.index[CLS + "." + attr].decorator_list):
+                    return NotImplemented          # an ordinary helper method of the class: interpreted, not a table cell
                 if tbl._stack: tbl.reads.setdefault(tbl._stack[-1], set()).add(attr)
                 val = tbl.cell(attr, iscsd)
                 if val is ATTR_ERROR_V: return Opaque(f"AttributeError({attr})")
@@ -259,6 +261,8 @@ def prepare_env(env):
     """numeric cross-check: respect Cauchy-Schwarz so that roots stay real."""
     import cmath
     xx = 0.5 + env._u("XX"); yy = 0.5 + env._u("YY")
+    if getattr(env, "heavy", False):           # channel powers many decades apart (records in very different units)
+        xx = 10.0 ** (60 * env._u("hXX") - 30); yy = 10.0 ** (60 * env._u("hYY") - 30)
     rho = 0.3 + 0.5 * env._u("rho"); ph = 6.28 * env._u("ph")
     env.fixed.update({"XX": xx, "YY": yy, "XY": (xx * yy) ** 0.5 * rho * cmath.exp(1j * ph)})
 
